@@ -380,7 +380,7 @@ class C08:
                 except NotImplementedError:
                     out = {"err": "OtherError"}
                 except Exception as e:  # noqa: BLE001
-                    out = {"err": type(e).__name__}
+                    out = {"err": cg.err_name_for(op, e)}
                 outcomes.append(out)
                 target = op[1] if "ok" in out else None
                 if "err" in out:
